@@ -505,14 +505,6 @@ def result_ids(res):
 
 
 # -- the root causes already known on the pinned tree, as transformations of the mirror ---------------------
-def emulate_empty_case_bodies(m):
-    """RC1: visit_tuple strips empty sub-tuples, so MultiConditional.bodies loses its empty bodies (values stay)"""
-    lists = tuple(tuple(emulate_empty_case_bodies(c) for c in l) for l in m[2])
-    if m[0] == 'M':
-        lists = tuple(b for b in lists[:-1] if b) + (lists[-1],)
-    return (m[0], m[1], lists, m[3])
-
-
 def without_empty_case_bodies(m):
     """both sides modulo RC1: every empty body of a MultiConditional removed"""
     lists = tuple(tuple(without_empty_case_bodies(c) for c in l) for l in m[2])
